@@ -17,6 +17,8 @@ RULES = {
     "T4": R.rule_T4,
     "T5": E.rule_T5,
     "T6": T.rule_T6,
+    "T13": T.rule_T13,
+    "N4": T.rule_N4,
     "T8": C.rule_T8,
     "T9": B.rule_T9,
     "T10": B.rule_T10,
@@ -54,10 +56,12 @@ PROPS = {
         "nested expression body and the tree root starting a new one (T12: a reapply re-enters the expression it is written in).",
     },
     "C02": {
-        "rules": ["T3"],
+        "rules": ["T3", "T13"],
         "claim": "Decides the table clause of C02, not the parser that consumes it: the priority map is total over producible "
         "definitions, induces exactly the ordered tiers of spec/precedence.json (compared as an ordered partition, never "
-        "by number) and the associativity classes are as specified.",
+        "by number), the associativity classes are as specified, and every call that places a token in the tree is told the "
+        "enclosing bracket's node index taken from the group stack, never the nesting depth (T13, sibling call-site agreement: the "
+        "value is compared with node indices when the parent chain is walked, so a depth lets an operator escape its brackets).",
     },
     "C03": {
         "rules": ["G2c", "G1c"],
@@ -104,10 +108,11 @@ PROPS = {
         "that every present key is found are not decided.",
     },
     "C11": {
-        "rules": ["T5"],
+        "rules": ["T5", "D1"],
         "claim": "Decides the dispatch clauses of C11: the (type, type) dispatch of data_equal (outer match and the nested slice x slice "
         "match) is symmetric, its catch-all is the constant false, mirrored arms hand the same value roles and typed accessors to the "
-        "same helper, and `!=` pushes the negation of the routine `==` pushes. Reflexivity/transitivity and element-wise meaning "
+        "same helper, and `!=` pushes the negation of the routine `==` pushes; the length that decides 'a single character equals the "
+        "one-element list of it' is a character count, never a byte length (D1). Reflexivity/transitivity and element-wise meaning "
         "depend on iterator contents and are not decided.",
     },
     "C19": {
@@ -184,10 +189,12 @@ PROPS = {
         "overflowing_*/f64 operations is trusted, not decided.",
     },
     "C12": {
-        "rules": ["T6"],
+        "rules": ["T6", "N4"],
         "claim": "Decides the wiring clause of C12: each of the four comparison functions reports an ordering for incomparable "
         "operands on which its own predicate is false, applies the predicate its name states, and the comparison helper "
-        "makes only like-typed pairs of the ordered types comparable. Agreement with the natural order is not decided.",
+        "makes only like-typed pairs of the ordered types comparable; every arm of SimpleNumber's partial_cmp returns the "
+        "primitive partial_cmp of its operands, so NaN stays incomparable (unit) and -0.0 equals 0.0 (N4). Agreement with the "
+        "natural order on ordinary values is std's and is not decided.",
     },
 }
 
